@@ -93,11 +93,15 @@ structure St where
   starts : T → Nat               -- ghost: how often `build.Build` started for the target
   nres : T → Nat                 -- ghost: how many terminal results were logged for the target
   res : T → Option Res           -- ghost: the last of them
+  bq : T → Nat                   -- ghost: index of the building queuer started for the target
+  tm : T → Nat                   -- ghost: index of the build task sent for the target
+  wk : T → Nat                   -- ghost: index of the worker that received it
 
 def St.init : St :=
   { st := fun _ => .inactive, fin := fun _ => false, qs := fun _ => none, nextQ := 0, chan := fun _ => none,
     nextM := 0, ws := fun _ => none, nextW := 0, numPending := 1, stopped := false, initDone := false,
-    starts := fun _ => 0, nres := fun _ => 0, res := fun _ => none }
+    starts := fun _ => 0, nres := fun _ => 0, res := fun _ => none,
+    bq := fun _ => 0, tm := fun _ => 0, wk := fun _ => 0 }
 
 /-- static parameters of one invocation -/
 structure Cfg where
@@ -128,7 +132,8 @@ def taskDone (s : St) : St :=
 /-- `queueAsync(building)`: count the task and start a `queueTargetAsync` goroutine -/
 def spawn (s : St) (t : T) (building force : Bool) (newSt : TS) : St :=
   { s with st := upd s.st t newSt, qs := upd s.qs s.nextQ (some ⟨t, building, force, .queueDeps (c.deps t)⟩),
-           nextQ := s.nextQ + 1, numPending := s.numPending + 1 }
+           nextQ := s.nextQ + 1, numPending := s.numPending + 1,
+           bq := upd s.bq t (if building then s.nextQ else s.bq t) }
 
 /-- `queueResolvedTarget(target, forceBuild)` (state.go:1140) -/
 def qrt (s : St) (t : T) (force : Bool) : St :=
@@ -157,7 +162,7 @@ def queuerStep (s : St) (i : Nat) (q : Queuer) : Option St :=
   | .waitDeps [] =>
     if s.st q.t = .active then
       some { s with st := upd s.st q.t .pending, numPending := s.numPending + 1,
-                    chan := upd s.chan s.nextM (some q.t), nextM := s.nextM + 1,
+                    chan := upd s.chan s.nextM (some q.t), nextM := s.nextM + 1, tm := upd s.tm q.t s.nextM,
                     qs := upd s.qs i (some { q with ph := .done }) }
     else some { s with qs := upd s.qs i (some { q with ph := .done }) }
   | .done => some (taskDone { s with qs := upd s.qs i none })
@@ -170,7 +175,8 @@ def fire (s : St) : Action → Option St
     | none => none
   | .take m =>
     match s.chan m with
-    | some t => some { s with chan := upd s.chan m none, ws := upd s.ws s.nextW (some ⟨t, .taken⟩), nextW := s.nextW + 1 }
+    | some t => some { s with chan := upd s.chan m none, ws := upd s.ws s.nextW (some ⟨t, .taken⟩), nextW := s.nextW + 1,
+                              wk := upd s.wk t s.nextW }
     | none => none
   | .drop m =>
     match s.chan m with
